@@ -8,6 +8,8 @@ ENV = dict(os.environ, GOFLAGS="-mod=mod", GOPROXY="off", GOWORK="off")
 props = [c["property_id"] for c in json.load(open(os.path.join(HERE, "MANIFEST.json")))["checks"]]
 if os.environ.get("PROPS"):
     props = os.environ["PROPS"].split(",")
+if os.environ.get("ALL"):
+    props = ["ALL"]  # every distinct rule once in one process (fast regression; the per-property run is the reference)
 def one(p):
     s = tempfile.mkdtemp(prefix="otterlint-neutral-")
     try:
